@@ -62,6 +62,10 @@ func main() {
 	switch os.Args[1] {
 	case "check":
 		os.Exit(cmdCheck(os.Args[2:]))
+	case "replay":
+		os.Exit(cmdReplay(os.Args[2:]))
+	case "run":
+		os.Exit(cmdRun(os.Args[2:]))
 	default:
 		fmt.Fprintln(os.Stderr, "unknown command", os.Args[1])
 		os.Exit(2)
@@ -140,4 +144,127 @@ func cmdCheck(args []string) int {
 	run := &CheckRun{spec: spec, tier: *tier, seed: seed, workers: *workers, verifDir: *verifDir, repoDir: *repoDir,
 		noReplay: *noReplay, noValidate: *noValidate, noEvidence: *noEvidence, verbose: *verbose, cross: *cross, only: *only, start: start}
 	return run.Run()
+}
+
+// cmdReplay runs a saved counterexample natively.
+func cmdReplay(args []string) int {
+	if len(args) < 2 {
+		fmt.Fprintln(os.Stderr, "usage: gosym replay <spec.json> <replay-file>")
+		return 2
+	}
+	specPath := args[0]
+	if !filepath.IsAbs(specPath) {
+		if _, err := os.Stat(specPath); err != nil {
+			specPath = filepath.Join("/verif", "checks", specPath)
+		}
+	}
+	spec, err := readSpec(specPath)
+	if err != nil {
+		fmt.Fprintln(os.Stderr, err)
+		return 2
+	}
+	r := &CheckRun{spec: spec, verifDir: "/verif", repoDir: "/repo"}
+	r.tmpDir, _ = os.MkdirTemp("", "gosym-")
+	defer os.RemoveAll(r.tmpDir)
+	r.prog, err = LoadProgram(spec, r.verifDir, r.repoDir)
+	if err != nil {
+		fmt.Fprintln(os.Stderr, err)
+		return 2
+	}
+	abs, _ := filepath.Abs(args[1])
+	cases, status, err := r.runNative(abs, 120*time.Second)
+	if err != nil {
+		fmt.Fprintln(os.Stderr, err)
+		return 2
+	}
+	fmt.Println("status:", status)
+	rc := 0
+	for i, c := range cases {
+		fmt.Printf("case %d: outcome=%s\n", i, c.outcome)
+		for _, n := range c.notes {
+			fmt.Println("  note", n)
+		}
+		if c.outcome != "ok" {
+			rc = 1
+		}
+	}
+	return rc
+}
+
+// cmdRun executes a case file inside the engine in concrete mode (debugging aid and
+// the engine half of translator validation).
+func cmdRun(args []string) int {
+	if len(args) < 2 {
+		fmt.Fprintln(os.Stderr, "usage: gosym run <spec.json> <case-file>")
+		return 2
+	}
+	specPath := args[0]
+	if !filepath.IsAbs(specPath) {
+		if _, err := os.Stat(specPath); err != nil {
+			specPath = filepath.Join("/verif", "checks", specPath)
+		}
+	}
+	spec, err := readSpec(specPath)
+	if err != nil {
+		fmt.Fprintln(os.Stderr, err)
+		return 2
+	}
+	prog, err := LoadProgram(spec, "/verif", "/repo")
+	if err != nil {
+		fmt.Fprintln(os.Stderr, err)
+		return 2
+	}
+	data, err := os.ReadFile(args[1])
+	if err != nil {
+		fmt.Fprintln(os.Stderr, err)
+		return 2
+	}
+	m := NewMachine(prog)
+	m.ex = &Explorer{prog: prog, cfg: ExploreConfig{MaxDecisions: 1 << 30}}
+	m.ex.outcomes = map[string]int{}
+	if msg := m.initPackages(); msg != "" {
+		fmt.Fprintln(os.Stderr, "init:", msg)
+		return 2
+	}
+	var entry *EntrySpec
+	params := map[string]int{}
+	var vals []uint64
+	for _, line := range strings.Split(string(data), "\n") {
+		f := strings.Fields(line)
+		if len(f) == 0 {
+			continue
+		}
+		switch f[0] {
+		case "case":
+			for _, e := range spec.Entries {
+				if e.Func == f[1] {
+					entry = e
+				}
+			}
+		case "param":
+			n, _ := strconv.Atoi(f[2])
+			params[f[1]] = n
+		case "val":
+			n, _ := strconv.ParseUint(f[1], 10, 64)
+			vals = append(vals, n)
+		}
+	}
+	if entry == nil {
+		fmt.Fprintln(os.Stderr, "entry not found")
+		return 2
+	}
+	entry.params = params
+	m.entry = entry
+	m.concrete = true
+	m.vec = vals
+	m.stepLimit = 50_000_000
+	res := m.runPath(WorkItem{})
+	fmt.Printf("outcome=%s detail=%s steps=%d\n", res.outcome, res.detail, res.steps)
+	for _, v := range res.violations {
+		fmt.Printf("violation label=%s msg=%s\n", v.Label, v.Msg)
+	}
+	for _, n := range res.notes {
+		fmt.Println("  note", n)
+	}
+	return 0
 }
